@@ -9,4 +9,21 @@ double _ZNKSt7complexIdE4imagB5cxx11Ev(const struct std_complex_double *this) { 
 CPOW(_ZSt3powIdESt7complexIT_ERKS1_RKS2_, const double *, const struct std_complex_double *)
 CPOW(_ZSt3powIdESt7complexIT_ERKS2_RKS1_, const struct std_complex_double *, const double *)
 CPOW(_ZSt3powIdESt7complexIT_ERKS2_S4_, const struct std_complex_double *, const struct std_complex_double *)
+/* one-argument functions of std::complex<double>: total, result unconstrained */
+#define CFN1(name) struct std_complex_double name(const struct std_complex_double *z) { struct std_complex_double r; double *p = (double *)&r; p[0] = __g2c_nondet_double(); p[1] = __g2c_nondet_double(); (void)z; return r; }
+CFN1(_ZSt3sinIdESt7complexIT_ERKS2_)
+CFN1(_ZSt3cosIdESt7complexIT_ERKS2_)
+CFN1(_ZSt3tanIdESt7complexIT_ERKS2_)
+CFN1(_ZSt4asinIdESt7complexIT_ERKS2_)
+CFN1(_ZSt4acosIdESt7complexIT_ERKS2_)
+CFN1(_ZSt4atanIdESt7complexIT_ERKS2_)
+CFN1(_ZSt4sinhIdESt7complexIT_ERKS2_)
+CFN1(_ZSt4coshIdESt7complexIT_ERKS2_)
+CFN1(_ZSt4tanhIdESt7complexIT_ERKS2_)
+CFN1(_ZSt3expIdESt7complexIT_ERKS2_)
+CFN1(_ZSt3logIdESt7complexIT_ERKS2_)
+CFN1(_ZSt5log10IdESt7complexIT_ERKS2_)
+CFN1(_ZSt4sqrtIdESt7complexIT_ERKS2_)
+double _ZSt3absIdET_RKSt7complexIS0_E(const struct std_complex_double *z) { (void)z; return __g2c_nondet_double(); }
+double _ZSt3argIdET_RKSt7complexIS0_E(const struct std_complex_double *z) { (void)z; return __g2c_nondet_double(); }
 #endif
